@@ -62,6 +62,36 @@ func markupSafe(c *km.Ctx, v ssa.Value, depth int) (bool, string) {
 		if alphabetSafe[n] {
 			return true, "alphabet-safe " + n
 		}
+		if n == "(*strings.Builder).String" {
+			// the text assembled in a local builder: every piece written into it is safe
+			b, isLocal := km.Unwrap(x.Common().Args[0]).(*ssa.Alloc)
+			if !isLocal {
+				return false, "strings.Builder that is not a local of the function"
+			}
+			pieces := 0
+			for _, ref := range *b.Referrers() {
+				ci, isCall := ref.(ssa.CallInstruction)
+				if !isCall {
+					continue
+				}
+				switch wn := km.CalleeFull(ci.Common()); wn {
+				case "(*strings.Builder).WriteString":
+					pieces++
+					if ok, why := markupSafe(c, ci.Common().Args[1], depth+1); !ok {
+						return false, "written into the builder: " + why
+					}
+				case "(*strings.Builder).WriteByte", "(*strings.Builder).WriteRune":
+					pieces++
+					if _, isC := km.Unwrap(ci.Common().Args[1]).(*ssa.Const); !isC {
+						return false, "non-constant byte written into the builder"
+					}
+				case "(*strings.Builder).Grow", "(*strings.Builder).String", "(*strings.Builder).Len", "(*strings.Builder).Reset":
+				default:
+					return false, "builder handed to " + short(wn)
+				}
+			}
+			return pieces > 0, "assembled in a builder from safe pieces"
+		}
 		if n == "fmt.Sprintf" {
 			f, ok := km.ConstString(x.Common().Args[0])
 			if ok && !strings.ContainsAny(strings.ReplaceAll(strings.ReplaceAll(strings.ReplaceAll(f, "%d", ""), "%x", ""), "%%", ""), "%") {
